@@ -10,7 +10,7 @@ MODULE = 'Props.C13'
 THEOREMS = ['C13_sum_of_threads', 'C13_interleave_invariant', 'C13_unenabled_thread_silent', 'C13_hits_exact',
             'C13_reported_interleave_invariant', 'C13_nonvacuous']
 LEVEL = 'proof'
-FEATURES_T = [{'gen'}, set(), {'rec'}, {'gen', 'rec'}]
+FEATURES_T = [{'gen'}, set(), {'rec'}, {'gen', 'rec'}, {'monitor'}, {'monitor', 'gen'}]
 FEATURES_I = [{'gen'}, {'gen', 'co'}, {'co'}, {'gen', 'rec'}, {'gen', 'straddle'}, {'gen', 'straddle', 'rec'}]
 
 
